@@ -94,7 +94,7 @@ CLAIMED.update({
                      "quota + throttled requests written-and-unanswered <= limit, no uint16 wrap, and after do_write no sendable request is left idle. Tied by lock-step of the real async_sender on a mock service (every output compared). End to end (composed_receive_maximum_respected): after every prefix the number of QoS>0 PUBLISH in flight on the connection (read off the events alone) is at most its Receive Maximum. Composed model (DESIGN.md S.8): the end-to-end statement is ALSO a Lean theorem about every event list accepted by a labelled transition system of the client above the stream (Model/Trace.lean / TraceIn.lean / TraceContent.lean); the real client is tied to it by trace inclusion: every H-client transcript is replayed through the compiled model on every run (lib/trace_check.py), a refusal is a broken correspondence.",
                 note=COMMON_NOTE + CLIENT_NOTE + "Hypothesis of the history theorem: terminal requests are never throttled (true of every call site).", technique="Lean 4 invariant by induction over sender histories + lock-step differential; in-flight monitor on the real client + composed observer model with end-to-end theorems, tied by trace inclusion of real-client transcripts", design="§5 C07", engine="h_sender,h_client"),
     "C09": dict(text="Proof (sender core): with the stream free and a terminal request queued, do_write writes exactly that request alone, ahead of everything queued; nothing is written while a write is in progress and the terminal request is next after it; a batch never mixes a terminal request with others. "
-                     "The 5 s bound, abort of the other operations and silence afterwards are searched by the C09 monitor on the real client (virtual time). Known finding F21. End to end (composed_no_success_after_cancel): after a finished async_disconnect no publish/subscribe/unsubscribe completes successfully until async_run(). Composed model (DESIGN.md S.8): the end-to-end statement is ALSO a Lean theorem about every event list accepted by a labelled transition system of the client above the stream (Model/Trace.lean / TraceIn.lean / TraceContent.lean); the real client is tied to it by trace inclusion: every H-client transcript is replayed through the compiled model on every run (lib/trace_check.py), a refusal is a broken correspondence.",
+                     "The 5 s bound, abort of the other operations and silence afterwards are searched by the C09 monitor on the real client (virtual time). Known finding F21. End to end (composed_no_success_after_cancel, composed_disconnect_first_in_write, composed_nothing_after_disconnect_in_write, composed_silence_after_disconnect): after a finished async_disconnect no publish/subscribe/unsubscribe completes successfully until async_run(); a DISCONNECT is alone in its write and nothing is written on the connection after it (Model/TraceDisc.lean on the write-level projection of every transcript). Composed model (DESIGN.md S.8): the end-to-end statement is ALSO a Lean theorem about every event list accepted by a labelled transition system of the client above the stream (Model/Trace.lean / TraceIn.lean / TraceContent.lean); the real client is tied to it by trace inclusion: every H-client transcript is replayed through the compiled model on every run (lib/trace_check.py), a refusal is a broken correspondence.",
                 note=COMMON_NOTE + CLIENT_NOTE, technique="Lean 4 theorems on do_write + lock-step; disconnect monitor on the real client under virtual time + composed observer model with end-to-end theorems, tied by trace inclusion of real-client transcripts", design="§5 C09", engine="h_sender,h_client"),
     "C12": dict(text="Proof (timing rules): the expressions compute_read_timeout, ping compute_wait_time and negotiated_keep_alive are translated from the source on every run; theorems: read time-out = 1500*K ms, ping period = K s, K = 0 => neither, negotiated = Server Keep Alive or configured. "
                      "PINGREQ cadence and read time-outs of the real client are checked by the C12 monitor under virtual time; the timed read of the real read_op (abandon exactly at the limit, never earlier, never with keep-alive 0) by the C12 stream monitor on H-stream.",
